@@ -66,7 +66,9 @@ func writeEntry(t *Table, entry kv.Entry) {
 	}
 	// Set ending entry values
 	t.endKey = entry.Key()
-	t.endSeqNum = entry.SeqNum()
+	// Entries arrive in key order, so the last entry does not necessarily have
+	// the highest sequence number.
+	t.endSeqNum = max(t.endSeqNum, entry.SeqNum())
 
 	// Add to metadata
 	t.searchIndex.IndexOffset(t.size)
